@@ -37,7 +37,7 @@ inductive Node where
   /-- UnaryStringOperation; `type` = StringOperationNames value or none -/
   | unaryStr (op : Str) (pos : Int) (type : Option Str) (of_ : Node)
   /-- PropertyAccessorOperation (name 'accessor') -/
-  | propAcc (pos : Int) (obj : Node) (prop : Str)
+  | propAcc (pos : Int) (obj : Node) (prop : Str) (explicitObj : Bool)   -- explicitObj: the object came from the stack (opcodes 0x61 / 0x62)
   /-- KeyPropertyAccessorOperation (name 'accessor') -/
   | keyAcc (pos : Int) (prop : Str)
   /-- MenuitemAccessorOperation (name 'menu_item') -/
@@ -138,7 +138,7 @@ def Node.pos : Node → Int
   | .spAssign p _ _ _ => p
   | .strOp _ p _ _ _ => p
   | .unaryStr _ p _ _ => p
-  | .propAcc p _ _ => p
+  | .propAcc p _ _ _ => p
   | .keyAcc p _ => p
   | .menuItemAcc p _ _ => p
   | .menuItemsAcc p _ => p
@@ -235,7 +235,7 @@ mutual
     | .spAssign _ l r _ => 1 + l.weight + r.weight
     | .strOp _ _ a b c => 1 + a.weight + b.weight + c.weight
     | .unaryStr _ _ _ x => 1 + x.weight
-    | .propAcc _ x _ => 1 + x.weight
+    | .propAcc _ x _ _ => 1 + x.weight
     | .keyAcc .. => 1
     | .menuItemAcc _ a b => 1 + a.weight + b.weight
     | .menuItemsAcc _ a => 1 + a.weight
